@@ -71,3 +71,15 @@ Example from_source_validator_literals :
   forallb (fun l => existsb (bytes_eqb l) FromSource.validator_literals)
           [s_dot; s_dotdot; s_dotdotsep] = true.
 Proof. vm_compute. reflexivity. Qed.
+
+(* ---- source equivalence (tools/go2coq; gen/SrcFns.v is regenerated from /repo on every run): the
+        Gallina definition translated from validator.go's ComparePath equals the model compare_path
+        (the sign of Go's int result, which is all its callers use), and its loop never runs out of
+        the fuel the translator derived ---- *)
+From Coq Require ZArith.
+From FSGen Require SrcFns.
+From FS Require Proofs.Src.ComparePathEq.
+Theorem ComparePath_src_eq :
+  forall a b, option_map (fun z => BinInt.Z.compare z BinNums.Z0) (SrcFns.ComparePath a b) = Some (compare_path a b).
+Proof. exact ComparePathEq.ComparePath_src_eq. Qed.
+Print Assumptions ComparePath_src_eq.
